@@ -89,9 +89,20 @@ func c01Gen(r *rand.Rand, n int, tier string) []string {
 			}
 			k += sz
 		}
-		out = append(out, strings.Join(ops, ";"))
+		out = append(out, busVariant(i, strings.Join(ops, ";")))
 	}
 	return out
+}
+
+// busVariant: every tenth store case runs over the BUS on a fresh instance instead of on the database directly
+// ("B=" prefix): the real p.<id> / p.<id>.<parent> handlers with acknowledgement, and the final content read back
+// through nodes.<parent>.<id> requests (client.GetNodes), hashes included — the place the property is observed at.
+// Only cases the wire can carry unchanged: tombstone counts within int32, text that is valid UTF-8 (C12's domain).
+func busVariant(i int, c string) string {
+	if i%10 != 9 || strings.Contains(c, ",8589934592,") || strings.Contains(c, hx([]byte("\xff\xfe"))) {
+		return c
+	}
+	return "B=" + c
 }
 
 // c03Gen: DAG histories: nodes created points-first or edge-first, mirrors, diamonds, attaching
@@ -148,7 +159,7 @@ func c03Gen(r *rand.Rand, n int, tier string) []string {
 				ops = append(ops, "np:"+hxs(pick(r, nodes))+":"+pt()+"+"+pt())
 			}
 		}
-		out = append(out, strings.Join(ops, ";"))
+		out = append(out, busVariant(i, strings.Join(ops, ";")))
 	}
 	return out
 }
